@@ -174,7 +174,13 @@ func collidingD(env *ty.Env, t *ty.Ty, depth int) []*ty.Val {
 			case "float64":
 				b := math.Float64bits(1.5)
 				return []*ty.Val{sl(fv(0), fv(b)), sl(fv(1), fv(b-31))}
+			case "byte", "uint8":
+				return []*ty.Val{sl(iv(0), iv(31)), sl(iv(1), iv(0))}
 			}
+		}
+		// a list of one element each, the elements colliding
+		if in := collidingD(env, u.Elem, depth-1); in != nil {
+			return []*ty.Val{sl(in[0]), sl(in[1])}
 		}
 	case ty.Ptr:
 		if in := collidingD(env, u.Elem, depth-1); in != nil {
@@ -267,7 +273,10 @@ func main() {
 		ty.M(b("bool"), ty.Sl(b("string"))), ty.M(b("int"), ty.Sl(b("string"))),
 		// imported structs with unexported fields (incl. names starting with an underscore): arguments that differ only
 		// there are different arguments
-		n(28), n(18)}
+		n(28), n(18),
+		// byte slices, alone and as elements (a memo keyed by string(bytes) cannot tell nil from empty; an Equal that
+		// looks at the elements' nil-ness only calls different contents equal)
+		ty.Sl(b("byte")), ty.Sl(ty.Sl(b("byte"))), n(22)}
 	if *thorough {
 		comparable = append(comparable, n(14), ty.Ar(2, b("string")), b("int8"), b("uint64"), b("complex128"), n(21))
 		noncomp = append(noncomp, n(11), n(12), n(13), ty.P(b("int")), ty.Sl(n(5)), ty.P(n(6)), ty.M(b("int"), ty.Sl(b("int"))), n(7))
@@ -589,6 +598,22 @@ func main() {
 			emit("memseq", s, "signedzero", []tuple{z, fl, z, t1, fl})
 			emit("memraw", s, "signedzero-raw", []tuple{z, fl, z})
 			emit("memraw", s, "signedzero-raw", []tuple{fl, z, t1, fl})
+		}
+		// nil and empty containers in turn: they are different arguments
+		for i, t := range s.params {
+			if k := env.Under(t).K; k == ty.Slice || k == ty.Map {
+				mk := func(v *ty.Val) tuple {
+					c := inst(base)
+					c[i] = vg.Inst(v)
+					return c
+				}
+				empty := &ty.Val{K: ty.VSlice}
+				if k == ty.Map {
+					empty = &ty.Val{K: ty.VMap}
+				}
+				emit("memseq", s, "nilempty", []tuple{mk(nilv()), mk(empty), mk(nilv()), mk(empty)})
+				emit("memseq", s, "nilempty", []tuple{mk(empty), mk(nilv()), mk(empty)})
+			}
 		}
 		// hash-colliding arguments (they matter for the bucket shape; the other shapes get them too)
 		for i, t := range s.params {
